@@ -52,6 +52,7 @@ fn main() {
             "C07chain" => chaincheck::run("C07", &tier, seed),
             "C14chain" => chaincheck::run("C14", &tier, seed),
             "C03chain" => chaincheck::run("C03", &tier, seed),
+            "C06chain" => chaincheck::run("C06", &tier, seed),
             _ => checks::run(&args[2], &tier, seed),
         },
         "show" => checks::show(&args[2], &tier, seed),
